@@ -21,7 +21,7 @@ func XMultiSameMethod() *spec.Spec {
 
 // Extended returns the extended families (everything beyond the documented core combinations).
 func Extended(thorough bool) []*spec.Spec {
-	out := []*spec.Spec{XMultiSameMethod(), XCrossFile(), XTwoServiceFiles(), XTimestampCards(), XTimestampCardsFmt(), XEmptyOrders(), XOneofSiblings(), XSharedMethodHeader(), XQuotedHeaderTexts(), XQuotedAnnotationValues(), XForeignResponse(), XSameNamedNestedEnums(), XOneofVariantShapes(), XInt64Cards(), XHeaderNameShapes(), XParamNameClashes(), XHeaderOverrideShapes(), XUnwrapWrapperShapes(), XProto2Basic()}
+	out := []*spec.Spec{XMultiSameMethod(), XCrossFile(), XTwoServiceFiles(), XTimestampCards(), XTimestampCardsFmt(), XEmptyOrders(), XOneofSiblings(), XSharedMethodHeader(), XQuotedHeaderTexts(), XQuotedAnnotationValues(), XForeignResponse(), XSameNamedNestedEnums(), XOneofVariantShapes(), XInt64Cards(), XHeaderNameShapes(), XParamNameClashes(), XHeaderOverrideShapes(), XUnwrapWrapperShapes(), XProto2Basic(), XSharedTypesAcrossServiceFiles()}
 	out = append(out, XAnnotationCards()...)
 	out = append(out, XIdentifierShapes()...)
 	out = append(out, CtxSpecs()...)
@@ -515,4 +515,31 @@ func XProto2Basic() *spec.Spec {
 			spec.Svc("Proto2RestService", "/p2", spec.RPC("GetItem", "Get2", "Out", "GET", "/items/{id}"), spec.RPC("PutItem", "Put2", "Out", "PUT", "/items/{id}")),
 		}}
 	return withCell(spec.One("x_proto2_basic", f), "ext/unit=proto2_basic", "extended", "valid", "codec")
+}
+
+// XSharedTypesAcrossServiceFiles: two service files of one package that share the messages of a third file - messages whose
+// schema or codec has side products (the variant components of a flattened discriminated oneof, a flatten parent, an unwrap
+// wrapper, an enum with custom values, a NUMBER-encoded field). Each service file is generated alone, together with the
+// other, and in both orders: what is emitted for one service must not depend on the other having been processed first.
+func XSharedTypesAcrossServiceFiles() *spec.Spec {
+	pkg := "vx_shared_svc_files"
+	common := &spec.File{Path: "x_shared_common.proto", Package: pkg,
+		Enums: []*spec.Enum{{Name: "Grade", Values: []*spec.EnumValue{{Name: "GRADE_UNSPECIFIED", Num: 0, Custom: spec.Str("none")}, {Name: "GRADE_A", Num: 1, Custom: spec.Str("a")}}}},
+		Messages: []*spec.Message{
+			spec.M("TextBody", spec.F("text", "string")), spec.M("ImageBody", spec.F("url", "string"), spec.F("width", "int32")),
+			spec.M("Event", spec.F("id", "string"), spec.Msg("text", "TextBody").In("content"), spec.Msg("image", "ImageBody").In("content")).
+				WithOneof(&spec.Oneof{Name: "content", Config: true, Disc: "type", Flatten: true}),
+			spec.M("Geo", spec.F("lat", "double"), spec.F("lng", "double")),
+			spec.M("Place", spec.F("name", "string"), spec.Msg("geo", "Geo").FlatP("geo_")),
+			spec.M("Amount", spec.F("units", "int64").I64(spec.EncNumber), spec.En("grade", "Grade")),
+			spec.M("Amounts", spec.Msg("items", "Amount").Rep().Unw()),
+		}}
+	alpha := &spec.File{Path: "x_shared_alpha.proto", Package: pkg, Imports: []string{common.Path},
+		Messages: []*spec.Message{spec.M("AlphaReq", spec.F("id", "string")), spec.M("AlphaResp", spec.Msg("event", "Event"), spec.Msg("place", "Place"), spec.Msg("by_key", "Amounts").Map())},
+		Services: []*spec.Service{spec.Svc("AlphaService", "/alpha", spec.RPC("GetAlpha", "AlphaReq", "AlphaResp", "POST", "/get"), spec.RPC("EchoEvent", "Event", "Event", "POST", "/event"))}}
+	beta := &spec.File{Path: "x_shared_beta.proto", Package: pkg, Imports: []string{common.Path},
+		Messages: []*spec.Message{spec.M("BetaReq", spec.F("id", "string")), spec.M("BetaResp", spec.Msg("events", "Event").Rep(), spec.Msg("amount", "Amount"))},
+		Services: []*spec.Service{spec.Svc("BetaService", "/beta", spec.RPC("GetBeta", "BetaReq", "BetaResp", "POST", "/get"), spec.RPC("EchoPlace", "Place", "Place", "POST", "/place"))}}
+	s := &spec.Spec{Name: "x_shared_svc_files", Files: []*spec.File{common, alpha, beta}}
+	return withCell(s, "ext/unit=shared_types_across_service_files", "extended", "valid", "genonly", "multifile")
 }
